@@ -334,6 +334,8 @@ func leafAllowedIn(fn *ssa.Function, call *ssa.Call) bool {
 }
 
 // taintSink follows v forward inside fn and names the first forbidden sink reached.
+var taintDepth int
+
 func taintSink(v ssa.Value, fn *ssa.Function) (string, token.Pos) {
 	seen := map[ssa.Value]bool{}
 	work := []ssa.Value{v}
@@ -400,6 +402,19 @@ func taintSink(v ssa.Value, fn *ssa.Function) (string, token.Pos) {
 					return full + " (formatting / logging / error text)", u.Pos()
 				case strings.Contains(strings.ToLower(f.Name()), "log") && strings.HasPrefix(pkgp, modPrefix):
 					return full, u.Pos()
+				}
+				// one level into a function of the same package: the parameter that receives the value
+				if sf := staticCalleeFn(u); sf != nil && sf.Pkg == fn.Pkg && sf.Blocks != nil && taintDepth < 1 {
+					for i, a := range u.Common().Args {
+						if a == x && i < len(sf.Params) {
+							taintDepth++
+							sink, _ := taintSink(sf.Params[i], sf)
+							taintDepth--
+							if sink != "" {
+								return sink + " (inside " + fnName(sf) + ", which receives the value as its argument)", u.Pos()
+							}
+						}
+					}
 				}
 			}
 		}
